@@ -14,6 +14,7 @@ import (
 	"github.com/paulmach/orb"
 	"github.com/paulmach/osm"
 	"github.com/paulmach/osm/annotate"
+	"github.com/paulmach/osm/annotate/shared"
 	"verif/harness/wire"
 )
 
@@ -63,6 +64,9 @@ type Input struct {
 	Parents       []Parent
 	Hists         []Hist
 	Regime        string
+	// AsChildren: the datasource also implements the *AsChildren interfaces (the wrapper then takes
+	// the child lists as given: sorted by version, VersionIndex and ReverseOfPrevious filled in)
+	AsChildren bool
 }
 
 func tns(t time.Time) int64 { return t.UnixNano() }
@@ -222,6 +226,39 @@ func (d *ds) RelationHistory(ctx context.Context, id osm.RelationID) (osm.Relati
 	return rs, nil
 }
 
+// dsChildren additionally implements annotate.NodeHistoryAsChildrenDatasourcer and
+// annotate.HistoryAsChildrenDatasourcer.
+type dsChildren struct{ *ds }
+
+func (d dsChildren) children(f osm.FeatureID) ([]*shared.Child, error) {
+	h, err := d.get(f)
+	if err != nil {
+		return nil, err
+	}
+	vs := append([]Hver(nil), h.Versions...)
+	sort.SliceStable(vs, func(a, b int) bool { return vs[a].Version < vs[b].Version })
+	var l []*shared.Child
+	for i, v := range vs {
+		c := &shared.Child{ID: f, Version: v.Version, ChangesetID: osm.ChangesetID(v.Changeset), VersionIndex: i,
+			Timestamp: v.Timestamp, Lat: v.Lat, Lon: v.Lon, ReverseOfPrevious: v.Reverse, Visible: v.Visible}
+		if v.Committed != nil {
+			c.Committed = *v.Committed
+		}
+		l = append(l, c)
+	}
+	return l, nil
+}
+
+func (d dsChildren) NodeHistoryAsChildren(ctx context.Context, id osm.NodeID) ([]*shared.Child, error) {
+	return d.children(id.FeatureID())
+}
+func (d dsChildren) WayHistoryAsChildren(ctx context.Context, id osm.WayID) ([]*shared.Child, error) {
+	return d.children(id.FeatureID())
+}
+func (d dsChildren) RelationHistoryAsChildren(ctx context.Context, id osm.RelationID) ([]*shared.Child, error) {
+	return d.children(id.FeatureID())
+}
+
 // Built holds the freshly built parents of one run.
 type Built struct {
 	Ways      osm.Ways
@@ -285,9 +322,14 @@ func (in *Input) Run() (out *Outcome) {
 		}
 	}()
 	var err error
-	if in.IsRel {
+	switch {
+	case in.IsRel && in.AsChildren:
+		err = annotate.Relations(context.Background(), b.Relations, dsChildren{newDS(in)}, in.options()...)
+	case in.IsRel:
 		err = annotate.Relations(context.Background(), b.Relations, newDS(in), in.options()...)
-	} else {
+	case in.AsChildren:
+		err = annotate.Ways(context.Background(), b.Ways, dsChildren{newDS(in)}, in.options()...)
+	default:
 		err = annotate.Ways(context.Background(), b.Ways, newDS(in), in.options()...)
 	}
 	if err != nil {
@@ -424,7 +466,7 @@ func (in *Input) Desc() interface{} {
 	}
 	return map[string]interface{}{"api": map[bool]string{false: "annotate.Ways", true: "annotate.Relations"}[in.IsRel],
 		"threshold": in.Threshold.String(), "ignore_inconsistency": in.IgnoreIncons, "ignore_missing": in.IgnoreMissing,
-		"has_filter": in.HasFilter, "filter": fl, "regime": in.Regime, "parents": ps, "histories": hs}
+		"has_filter": in.HasFilter, "filter": fl, "regime": in.Regime, "as_children_datasource": in.AsChildren, "parents": ps, "histories": hs}
 }
 
 // ---------------------------------------------------------------------------
@@ -626,10 +668,13 @@ func Generate(rng *rand.Rand, g GenOpts) *Input {
 	// histories in datasource order (shuffled: the wrapper must sort by version)
 	for _, c := range chs {
 		if !c.exists {
-			if rng.Intn(2) == 0 {
-				continue // never listed: behaves as not found
+			switch rng.Intn(3) {
+			case 0: // never listed: behaves as not found
+			case 1:
+				in.Hists = append(in.Hists, Hist{FID: c.fid, Kind: 1})
+			default: // found, but empty (no error)
+				in.Hists = append(in.Hists, Hist{FID: c.fid, Kind: 0})
 			}
-			in.Hists = append(in.Hists, Hist{FID: c.fid, Kind: 1})
 			continue
 		}
 		h := Hist{FID: c.fid, Versions: append([]Hver(nil), c.vers...)}
@@ -658,6 +703,7 @@ func Generate(rng *rand.Rand, g GenOpts) *Input {
 			}
 		}
 	}
+	in.AsChildren = rng.Intn(4) == 0
 	in.ComputeReverse()
 	return in
 }
